@@ -24,7 +24,7 @@ for n in sorted(os.listdir(src)):
             shutil.copy(os.path.join(d, fn), dst)
     meta = json.load(open(os.path.join(dst, 'meta.json')))
     meta['property'] = pid[:3]
-    meta['wave'] = 2 if pid.endswith('b') else 1
+    meta['wave'] = {'b': 2, 'c': 3, 'd': 4, 'e': 5}.get(pid[3:4], 1)
     meta['confirmed_by_main_session'] = {
         'how': 'tools/verify_seed.sh %s: in a scratch worktree of /repo HEAD: demo on clean build; git apply patch.diff; ninja; ctest -j8; demo again' % pid,
         'result': vt.strip().splitlines(),
